@@ -203,6 +203,11 @@ func newMultipartResponseAggregator(
 	go func() {
 		ticker := time.NewTicker(tickerDuration)
 		defer ticker.Stop()
+		// flush panics when a payload cannot be serialised. Nothing recovers a panic on this
+		// goroutine, so it would take the whole process down; the responses stay queued, and
+		// Done() meets the same failure on the handler goroutine, where the server's recover
+		// turns it into an error for this request only.
+		defer func() { _ = recover() }()
 		for {
 			select {
 			case <-a.done:
